@@ -133,6 +133,7 @@ type c13World struct {
 	published  int
 	forceClose int
 	errs       int // errors returned to the harness by the driven functions
+	bootCC     bool // a restarted process found StateContractClosed in the log
 
 	// the live process
 	cfg ChannelArbitratorConfig
@@ -594,6 +595,9 @@ func (w *c13World) boot() *ChannelArbitrator {
 		sets = w.htlcSets()
 	}
 
+	if w.lives > 0 && w.state == StateContractClosed {
+		w.bootCC = true
+	}
 	w.cfg = cfg
 	arb := NewChannelArbitrator(cfg, sets, w)
 	w.arb = arb
@@ -1080,10 +1084,12 @@ func c13Htlc(sc *c13Scenario, name string, incoming bool) channeldb.HTLC {
 	// Domain as in C12: expiry - delta does not wrap (expiries are absolute
 	// block heights, the deltas small configured block counts).
 	if incoming {
-		sc.dom = sc.dom && h.RefundTimeout >= sc.inDelta
+		sc.dom = sc.dom && h.RefundTimeout >= sc.inDelta &&
+			h.RefundTimeout < 1<<31
 		h.OutputIndex = 3
 	} else {
-		sc.dom = sc.dom && h.RefundTimeout >= sc.outDelta
+		sc.dom = sc.dom && h.RefundTimeout >= sc.outDelta &&
+			h.RefundTimeout < 1<<31
 		h.OutputIndex = 2
 	}
 	// Domain: an HTLC is dust on every commitment or on none (see NOTES.md).
@@ -1173,7 +1179,10 @@ func c13NewScenario(withHtlcs bool) *c13Scenario {
 	return sc
 }
 
-func c13Resume(withHtlcs bool, nCrash, maxEffects int) {
+// window: 0 = every stop point; 1 = only runs in which no restarted process
+// finds StateContractClosed in the log; 2 = only runs in which one does (see
+// NOTES.md, CANDIDATE FINDING).
+func c13Resume(withHtlcs bool, nCrash, maxEffects, window int) {
 	c13Config()
 	sc := c13NewScenario(withHtlcs)
 	vAssume(sc.dom)
@@ -1195,6 +1204,9 @@ func c13Resume(withHtlcs bool, nCrash, maxEffects int) {
 
 	// a stop index beyond the last effect of a life: nothing was interrupted
 	if b.lives != nCrash {
+		vAssume(false)
+	}
+	if (window == 1 && b.bootCC) || (window == 2 && !b.bootCC) {
 		vAssume(false)
 	}
 	vObserve("finalState", uint8(a.state))
@@ -1234,6 +1246,10 @@ func c13Resume(withHtlcs bool, nCrash, maxEffects int) {
 	}
 }
 
-func VerifC13Resume()     { c13Resume(false, 1, 14) }
-func VerifC13Resume2()    { c13Resume(false, 2, 14) }
-func VerifC13ResumeHtlc() { c13Resume(true, 1, 20) }
+func VerifC13Resume()     { c13Resume(false, 1, 14, 0) }
+func VerifC13Resume2()    { c13Resume(false, 2, 14, 0) }
+func VerifC13ResumeHtlc() { c13Resume(true, 1, 20, 1) }
+
+// VerifC13RestartContractClosed: the stop points after which the restarted
+// process re-executes StateContractClosed with HTLCs in the commit set.
+func VerifC13RestartContractClosed() { c13Resume(true, 1, 20, 2) }
